@@ -248,6 +248,9 @@ pub enum QOp {
     I(u64, usize),
     D(u64),
     Flush,
+    /// metadata update / bulk load: both clear the query cache wholesale
+    UM(u64),
+    Bulk(u64, usize),
 }
 
 fn q_vecs() -> Vec<Vec<f32>> {
@@ -256,7 +259,7 @@ fn q_vecs() -> Vec<Vec<f32>> {
 }
 
 fn q_alphabet() -> Vec<QOp> {
-    vec![QOp::S(0, 1), QOp::S(1, 1), QOp::S(2, 2), QOp::S(3, 1), QOp::S(4, 2), QOp::I(1, 0), QOp::I(2, 2), QOp::I(3, 5), QOp::I(1, 3), QOp::D(1), QOp::Flush]
+    vec![QOp::S(0, 1), QOp::S(1, 1), QOp::S(2, 2), QOp::S(3, 1), QOp::S(4, 2), QOp::I(1, 0), QOp::I(2, 2), QOp::I(3, 5), QOp::I(1, 3), QOp::D(1), QOp::Flush, QOp::UM(8), QOp::Bulk(2, 1)]
 }
 
 pub fn run_qhistory(cap: usize, metric: &str, hist: &[QOp], st: &mut Stats) {
@@ -281,6 +284,12 @@ pub fn run_qhistory(cap: usize, metric: &str, hist: &[QOp], st: &mut Stats) {
             }
             QOp::Flush => {
                 let _ = te.engine.flush_hot_tier(true);
+            }
+            QOp::UM(id) => {
+                let _ = te.engine.update_metadata(*id, vcore::to_hash(&meta1("u", "1")), true);
+            }
+            QOp::Bulk(id, v) => {
+                let _ = te.engine.bulk_load_cold_tier(vec![(*id, vs[*v].clone(), Default::default())]);
             }
         }
         let qc = te.qcache.len();
@@ -412,7 +421,7 @@ pub fn run(prop: &str, tier: &str, replay: Option<&str>) -> i32 {
     if is20 {
         ev.set("rule", format!("all {nletters}^{depth} TieredEngine histories (writes, deletes, metadata updates, bulk load, forced/threshold drain, background tick, two searches, adversarial pokes) per configuration (strategy x L1a capacity x hot soft/hard limit x query-cache capacity); after every operation document-cache size <= capacity (both halves for A/B), query-cache size <= capacity, and hot-tier size <= hard limit whenever an insert has just returned; non-trivial = histories containing a poke; states = distinct (model, cache sizes, hot-tier id set)"));
         if let Some((q, qd, qn)) = &qinfo {
-            ev.set("query_cache_section_rule", format!("all {qn}^{qd} histories over five DISTINCT queries (k 1/2), inserts that fall inside cached top-k boundaries, an overwrite, a delete and a drain, for query-cache capacity {{1,2}} x metric {{euclidean,cosine}} on a TieredEngine holding two documents; after every operation query-cache size <= capacity"));
+            ev.set("query_cache_section_rule", format!("all {qn}^{qd} histories over five DISTINCT queries (k 1/2), inserts that fall inside cached top-k boundaries, an overwrite, a delete, a drain, a metadata update and a bulk load (both clear the cache wholesale), for query-cache capacity {{1,2}} x metric {{euclidean,cosine}} on a TieredEngine holding two documents; after every operation query-cache size <= capacity"));
             ev.set("query_cache_section_histories", q.histories);
             ev.set("query_cache_section_steps", q.steps);
             ev.set("query_cache_section_steps_at_capacity", q.at_capacity_steps);
